@@ -361,7 +361,7 @@ class Generator:
             elif words[0] == "loopbody":
                 opts["loopbodies"][int(words[1])] = payload
             elif words[0] == "insert":
-                m = re.match(r"insert\s+(before|after)\s+(\d+)\s+`(.*)`\s*$", h)
+                m = re.match(r"insert\s+(before|after_stmt|after)\s+(\d+)\s+`(.*)`\s*$", h)
                 if not m:
                     raise ValueError("%s:%d: bad insert directive: %s" % (tpl_path, tpl_line, h))
                 opts["inserts"].append((m.group(1), int(m.group(2)), m.group(3), payload))
@@ -1018,6 +1018,26 @@ class Generator:
                 if not tk:
                     raise ShapeError("%s: anchor `%s` does not start at a token boundary" % (unit.name, anchor))
                 at = tk[0]
+            elif where == "after_stmt":
+                # after the statement the anchor starts: behind the first `;` at the anchor's own nesting level
+                tk = [k for k in range(bo, bc + 1) if toks[k].start == a_start]
+                if not tk:
+                    raise ShapeError("%s: anchor `%s` does not start at a token boundary" % (unit.name, anchor))
+                k, depth, at = tk[0], 0, None
+                while k < bc:
+                    tx = toks[k]
+                    if tx.kind == "punct" and tx.text in "([{":
+                        depth += 1
+                    elif tx.kind == "punct" and tx.text in ")]}":
+                        depth -= 1
+                        if depth < 0:
+                            break
+                    elif tx.kind == "punct" and tx.text == ";" and depth == 0:
+                        at = k + 1
+                        break
+                    k += 1
+                if at is None:
+                    raise ShapeError("%s: no statement end after anchor `%s`" % (unit.name, anchor))
             else:
                 tk = [k for k in range(bo, bc + 1) if toks[k].end == a_end]
                 if not tk:
